@@ -4,8 +4,8 @@
        (EnumLoaderRepo.tla: cycles, diamonds, self-imports, glob statements) x provider kind x
        global repository on/off x builtin models / shared names x repeated and pre-cached loads; plus
        closures over two registered languages (repositories absent, separate or shared; a file cached
-       by a direct load before/after a model of the other language imports it) and string main models
-       under GlobalRepo providers;
+       by a direct load before/after a model of the other language imports it), string main models
+       under GlobalRepo providers, and a failing load between loads that must hit the cache;
        invariants C17_OpenOnce, C17_OpensCreated, C17_CachedNotOpened, C17_Identity, C17_CacheSame (+ the others);
 (S->I) every scenario rendered as a directory of model files and loaded with the real textX; opens,
        repositories, identities of all reference targets compared with the behaviours TLC printed;
